@@ -4,6 +4,8 @@ import TexcraftModel.Lemmas.C18Build
 import TexcraftModel.Lemmas.C18Scaled
 import TexcraftModel.Lemmas.C18Text
 import TexcraftModel.Lemmas.C18Format
+import TexcraftModel.Lemmas.C18Loc
+import TexcraftModel.Lemmas.C18Prepass
 
 /-!
 # C18 — the Box language: property theorems
@@ -23,6 +25,11 @@ Text level
                       printer's real layout) and parsing the text back gives the list
 * `lexer_inverts_printer`  `lex (render cs) = tokens cs` for every printable CST
 * `lex_total`, `lex_fuel_irrelevant`  the lexer model is total (fuel suffices)
+* `prepass_closes_call`, `prepass_closes_list`, `prepass_skips_string`, `prepass_skips_comment`
+                      the bracket pre-pass agrees with the printer's structure
+* `comment_line_ignored`, `comment_between_calls`, `convert_round_trip`, `display_vbox_round_trip`
+* `lex_error_located`, `lex_error_byte_range`  every lexer error carries a span that is a
+                      valid character range of the source
 * `format_text_idempotent`, `format_text_preserves_meaning`, `lexer_output_printable`
                       the format laws on text (texts without comments)
 
@@ -198,9 +205,11 @@ example : exprList .H
 `exprList` excludes exactly these; each line shows that the restriction is needed. -/
 
 /-- A dimension of 16384pt = 2^30 sp is printed (`16384.0pt`) but the lexer rejects it. -/
-example : lexNumber false ['1', '6', '3', '8', '4', '.', '0', 'p', 't'] = .err .numberOutOfRange := by rfl
+example : lexNumber ['1', '6', '3', '8', '4', '.', '0', 'p', 't'] false ['1', '6', '3', '8', '4', '.', '0', 'p', 't'] =
+    .err (.numberOutOfRange (['1', '6', '3', '8', '4', '.', '0', 'p', 't'], [])) := by rfl
 /-- `i32::MIN` is printed (`-2147483648`) but the lexer rejects it (integers are in (-2^31, 2^31)). -/
-example : lexNumber true ['2', '1', '4', '7', '4', '8', '3', '6', '4', '8'] = .err .numberOutOfRange := by rfl
+example : lexNumber ['-', '2', '1', '4', '7', '4', '8', '3', '6', '4', '8'] true ['2', '1', '4', '7', '4', '8', '3', '6', '4', '8'] =
+    .err (.numberOutOfRange (['-', '2', '1', '4', '7', '4', '8', '3', '6', '4', '8'], [])) := by rfl
 /-- A rule dimension of exactly -2^31 sp *is* "running" (there is no other way to write it). -/
 example : runningVal (-2147483648) = .str ['r', 'u', 'n', 'n', 'i', 'n', 'g'] := by rfl
 /-- Kern kinds, glue kinds, mark contents and the glue set of a vbox have no syntax. -/
@@ -359,5 +368,165 @@ theorem format_text_preserves_meaning (raw : Char → Bool) (src out : List Char
 
 example : formatText (fun _ => true) "kern ( 1.5in,) # c".toList = .ok "kern(108.405pt)\n".toList := by
   decide +kernel
+
+/-! ## Located errors
+
+"Arbitrary text yields a list or *located* errors": every error of the model lexer carries the
+label span of the corresponding `lang::Error` (as a pair of suffixes of the source; the real
+`Str` is the byte range `byteRange src span`). -/
+
+/-- Every error the lexer reports is one of the six located classes, and its span is a valid
+character range of the source: the source splits as `before ++ piece ++ after` with the span
+being (`piece ++ after`, `after`) — so its byte range starts and ends on character boundaries,
+in order, inside the text. (Mutants 12 and 45 of the sweep broke exactly this in the real
+code; the harness compares the real label span with `byteRange`.) -/
+theorem lex_error_located (src : List Char) (e : LexErr) (h : lex src = .err e) :
+    ∃ before piece after, src = before ++ piece ++ after ∧ e.span = some (piece ++ after, after) := by
+  have h1 := lex_err_has_span src.length src e (Nat.le_refl _) h
+  cases hs : e.span with
+  | none => exact absurd hs h1
+  | some sp =>
+    obtain ⟨f, t⟩ := sp
+    obtain ⟨⟨piece, hp⟩, ⟨before, hb⟩⟩ := lex_err_located src.length src e f t (Nat.le_refl _) h hs
+    refine ⟨before, piece, t, ?_, ?_⟩
+    · rw [← hb, ← hp, List.append_assoc]
+    · rw [hp]
+
+/-- In bytes: `start ≤ end ≤ len`, `start` = the UTF-8 length of `before`, `end` = that of
+`before ++ piece`. -/
+theorem lex_error_byte_range (src : List Char) (e : LexErr) (h : lex src = .err e) :
+    ∃ before piece after sp, src = before ++ piece ++ after ∧ e.span = some sp ∧
+      byteRange src sp = (utf8Len before, utf8Len (before ++ piece)) := by
+  obtain ⟨before, piece, after, h1, h2⟩ := lex_error_located src e h
+  refine ⟨before, piece, after, _, h1, h2, ?_⟩
+  have hl : ∀ a b : List Char, utf8Len (a ++ b) = utf8Len a + utf8Len b := by
+    intro a b; induction a with
+    | nil => simp [utf8Len]
+    | cons c a ih => simp only [List.cons_append, utf8Len, ih]; omega
+  simp only [byteRange, h1, hl, Prod.mk.injEq]
+  constructor <;> omega
+
+example : lex "kern(1.5.2pt)".toList =
+    .err (.multipleDecimalPoints (".2pt)".toList, "2pt)".toList)) := by decide +kernel
+example : byteRange "kern(1.5.2pt)".toList (".2pt)".toList, "2pt)".toList) = (8, 9) := by decide
+example : lex "chars(\"ä\\q\")".toList =
+    .err (.unknownEscapeSequence ("\\q\")".toList, "\")".toList)) := by decide +kernel
+
+/-! ## Comments, conversions, `Display for ds::VBox` -/
+
+/-- A comment line (`#` to the end of the line) in front of any text lexes to nothing, hence
+changes neither the tokens nor what the text parses to. -/
+theorem comment_line_ignored (cmt s : List Char) (h : ∀ x ∈ cmt, x ≠ '\n') (m : Mode) :
+    lex ('#' :: (cmt ++ '\n' :: s)) = lex s ∧
+    parseText m ('#' :: (cmt ++ '\n' :: s)) = parseText m s := by
+  have := lex_comment cmt s h
+  exact ⟨this, by unfold parseText; rw [this]⟩
+
+/-- Inserting a comment line between two blocks of printed calls (top level, or inside a list
+at any depth `d`) does not change what the text lexes to. -/
+theorem comment_between_calls (raw : Char → Bool) (cs : List Call) (d : Nat) (cmt rest : List Char)
+    (hc : callsOk cs = true) (h : ∀ x ∈ cmt, x ≠ '\n') :
+    lex (renderCalls raw d cs ++ '#' :: (cmt ++ '\n' :: rest)) = lex (renderCalls raw d cs ++ rest) :=
+  lex_comment_after_calls scaledRoundTrip raw cs d cmt rest hc h
+
+/-- …but `#` inside a string is a character, not a comment. -/
+example : lex "chars(\"#\")".toList = .ok [.kw "chars".toList, .lparen, .str ['#'], .rparen] := by
+  decide +kernel
+
+/-- **convert.rs + ast.rs, both directions**: `ToBoxLang` + `lower_arg` (with the merging of
+character runs) followed by `Args::build` + `ToBoxworks` is the identity on every expressible
+list (and `normList` in general, see `parse_print_normalize`). -/
+theorem convert_round_trip (m : Mode) (l : List Node) (he : exprList m l = true) :
+    build m (lower m l) = some l := by
+  have h := repr_list_of_expr m l he
+  have := build_lower scaledRoundTrip m l h.1
+  rw [h.2] at this
+  exact this
+
+/-- `Display for ds::VBox` writes the call of the box alone (`CstTreeIter::Other`), i.e. the
+element-wise text of the one-element list; reading it back gives that box. -/
+theorem display_vbox_round_trip (raw : Char → Bool) (h w d s : Int) (l : List Node)
+    (he : exprNode (.vbox h w d s false l) = true) :
+    parseText .H (renderCalls raw 0 [lowerNode (.vbox h w d s false l)]) = .ok [.vbox h w d s false l] := by
+  have := text_round_trip_each raw [.vbox h w d s false l] (by simp [exprList, allowed, he])
+  simpa [renderEach, lowerEach] using this
+
+/-! ## The bracket pre-pass
+
+`closeScan` is `Lexer::build` started after an opening bracket. The real parser cuts the text
+of an argument list / a list at the closer this pass finds and gives it to a sub-lexer; the
+model parser finds the end by parsing. On everything the printer writes the two agree: -/
+
+/-- The pre-pass closes the parenthesis of a printed call exactly after its arguments (in
+either layout, at any depth, with any strings inside — quotes, backslashes, brackets, `#`). -/
+theorem prepass_closes_call (raw : Char → Bool) (k : Nat) (args : List Arg) (rest : List Char)
+    (ha : argsOk args = true) :
+    let txt := if multiline args then renderArgsMulti raw k args ++ '\n' :: indent k
+               else renderArgsSingle raw k args
+    closeScan .regular 0 (txt ++ ')' :: rest) = some (txt, ')', rest) := by
+  intro txt
+  by_cases hm : multiline args = true
+  · have e : txt = renderArgsMulti raw k args ++ '\n' :: indent k := by simp [txt, hm]
+    rw [e]
+    simp only [List.append_assoc, List.cons_append]
+    rw [closeScan_renderArgsMulti raw args k 0 _ ha, closeScan_plain1 '\n' plain_nl,
+      closeScan_plain _ 0 _ (plain_indent k), closeScan_close_zero ')' (.inl rfl)]
+    rw [← consAll_cons, ← consAll_append, consAll_some]
+  · have hm' : multiline args = false := by simpa using hm
+    have e : txt = renderArgsSingle raw k args := by simp [txt, hm']
+    rw [e, closeScan_renderArgsSingle raw args k 0 _ ha, closeScan_close_zero ')' (.inl rfl), consAll_some]
+
+/-- …and the square bracket of a printed list exactly after its calls. -/
+theorem prepass_closes_list (raw : Char → Bool) (k : Nat) (cs : List Call) (rest : List Char)
+    (hc : callsOk cs = true) :
+    closeScan .regular 0 (renderCalls raw k cs ++ indent (k - 2) ++ ']' :: rest) =
+      some (renderCalls raw k cs ++ indent (k - 2), ']', rest) := by
+  simp only [List.append_assoc]
+  rw [closeScan_renderCalls raw cs k 0 _ hc, closeScan_plain _ 0 _ (plain_indent (k - 2)),
+    closeScan_close_zero ']' (.inr rfl), ← consAll_append, consAll_some]
+
+/-- A printed string is invisible to the pre-pass whatever it contains (mutant 11 of the sweep:
+"`\\\"` ends the string" breaks this in the real code). -/
+theorem prepass_skips_string (raw : Char → Bool) (s : Str) (d : Nat) (rest : List Char) :
+    closeScan .regular d (printStr raw s ++ rest) = consAll (printStr raw s) (closeScan .regular d rest) :=
+  closeScan_printStr raw s d rest
+
+/-- A comment line is invisible to the pre-pass whatever brackets and quotes it contains
+(mutant 10: "the pre-pass ignores comments"). -/
+theorem prepass_skips_comment (cmt : List Char) (d : Nat) (rest : List Char) (h : ∀ x ∈ cmt, x ≠ '\n') :
+    closeScan .regular d ('#' :: (cmt ++ '\n' :: rest)) =
+      consAll ('#' :: (cmt ++ ['\n'])) (closeScan .regular d rest) := by
+  have : closeScan .regular d ('#' :: (cmt ++ '\n' :: rest)) =
+      consIn '#' (closeScan .comment d (cmt ++ '\n' :: rest)) := by simp [closeScan]
+  rw [this, closeScan_comment cmt d rest h]
+  rfl
+
+example : closeScan .regular 0 "\"a)\\\"]\" # ) \n 1pt)x".toList =
+    some ("\"a)\\\"]\" # ) \n 1pt".toList, ')', ['x']) := by decide +kernel
+
+/-! ## Why some one-site changes of the code do not break the property
+
+Three families of the mutation sweep (mutants/C18) were detected only as model drift; these
+lemmas say why the property survives them. -/
+
+/-- Mutant 16 (arguments separated by a space instead of `", "`): commas between arguments are
+optional for the parser, the same argument list is read with none at all. -/
+theorem commas_optional (args : List Arg) (rest : List BTok) (f : Nat)
+    (hf : (printArgsBare args).length + 1 < f) :
+    parseArgs f (printArgsBare args ++ .rparen :: rest) = some (args, rest) :=
+  parseArgs_bare args f rest hf
+
+/-- Mutant 08 (the lexer keeps 5 instead of 17 fraction digits): the printer never writes more
+than five (TeX §103), so nothing printed is affected. -/
+theorem printed_fraction_at_most_5_digits (s : Int) :
+    (fracDigits (s.natAbs % 65536)).length ≤ 5 :=
+  fracDigits_short _ (Nat.mod_lt _ (by omega))
+
+/-- Mutant 17 (`escape_default` instead of `escape_debug`) and every other choice of which
+characters are written as `\u{…}`: `string_escape_roundtrip` holds for every `raw`; here the
+two extremes. -/
+example (s : Str) (rest : List Char) :
+    lex (printStr (fun _ => true) s ++ rest) = lex (printStr (fun _ => false) s ++ rest) := by
+  rw [lex_str, lex_str]
 
 end C18
